@@ -120,10 +120,32 @@ NamesUnusedPartner(e) ==
      /\ CompatibleLoose(Named(e), StartIdx(tx), MaxAdj(C.cfg))
      /\ \E H \in (SUBSET Named(e)) \ {Named(e)} :
            /\ WitnessWith(e, H)
-           /\ \E pos \in PeptideStarts(tx, H, e.seq) :
-                 \A x \in Named(e) \ H :
-                    /\ \E y \in H : Mergeable(x, y, StartIdx(tx))
-                    /\ EndOnHap(x, H \cup {x}) <= pos
+           /\ \A x \in Named(e) \ H : \E y \in H : Mergeable(x, y, StartIdx(tx))
+
+(* recorded finding: at a multi-allelic site the entry names another allele than the one the     *)
+(* peptide carries: replacing named variants by input variants with the same span gives a witness  *)
+NamesOtherAllele(e) ==
+  /\ IdsKnown(e) /\ Len(e.sect) = 0 /\ W2FSet(e) = {}
+  /\ \E H \in SUBSET Vars(e) :
+        /\ Cardinality(H) = Cardinality(Named(e)) /\ H # Named(e)
+        /\ \A v \in Named(e) \ H : \E w \in H \ Named(e) : w.start = v.start /\ w.end = v.end
+        /\ \A w \in H \ Named(e) : \E v \in Named(e) \ H : w.start = v.start /\ w.end = v.end
+        /\ WitnessWith(e, H)
+
+(* recorded finding, residual class: the peptide is produced by a haplotype H that differs from the  *)
+(* named set only in variants of a dense cluster - every variant named wrongly or omitted has       *)
+(* another input variant within 3 nt (same or neighbouring codon), which is where the graph's        *)
+(* bubbles overlap and labels of alternative branches get mixed.  A wrongly named or omitted         *)
+(* ISOLATED variant is never matched.                                                                *)
+GapBetween(v, w) == LET lo == IF v.start > w.start THEN v.start ELSE w.start
+                        hi == IF v.end < w.end THEN v.end ELSE w.end
+                    IN IF lo > hi THEN lo - hi ELSE 0
+Crowded(e, v) == \E w \in Vars(e) \ {v} : GapBetween(v, w) <= 3
+DenseClusterLabel(e) ==
+  /\ IdsKnown(e) /\ Len(e.sect) = 0 /\ W2FSet(e) = {}
+  /\ \E H \in SUBSET Vars(e) :
+        /\ WitnessWith(e, H)
+        /\ \A v \in (H \ Named(e)) \cup (Named(e) \ H) : Crowded(e, v)
 
 (* the entry involves an alternative-splicing insertion / substitution that has nested variants   *)
 (* (it names the record or one of its nested variants): recorded finding header_of_nested_as_variant *)
@@ -137,8 +159,10 @@ ClassOf(e) ==
   ELSE IF OmitsUpstream(e) THEN "omits_upstream"
   ELSE IF NamesOverlapping(e) THEN "names_overlapping"
   ELSE IF NamesUnusedPartner(e) THEN "names_unused_partner"
+  ELSE IF NamesOtherAllele(e) THEN "names_other_allele"
   ELSE IF ContextWitness(e) THEN "context_witness"
   ELSE IF NestedAs(e) THEN "nested_as"
+  ELSE IF DenseClusterLabel(e) THEN "dense_cluster"
   ELSE "no_witness"
 
 AllLabels == [k \in 1..Len(C.entries) |-> C.entries[k].label]
